@@ -750,6 +750,17 @@ func formatIntegerComponent(n int, marker *variableMarker) (string, error) {
 		return "", err
 	}
 
+	// A number that is shorter than the minimum width
+	// is padded with leading zeros.
+	if padding := marker.minWidth - utf8.RuneCountInString(s); padding > 0 {
+		zeros := strings.Repeat("0", padding)
+		if strings.HasPrefix(s, "-") {
+			s = "-" + zeros + s[1:]
+		} else {
+			s = zeros + s
+		}
+	}
+
 	switch marker.modifier {
 	case modOrdinal:
 		s += ordinalSuffix(n)
